@@ -67,8 +67,19 @@ let call_of (t : string) : M.cfg_call =
   | "L" -> if String.length arg = 1 then M.CSSLPort (true, arg = "1") else M.CSSLPort (arg.[0] = '1', arg.[1] = '1')
   | _ -> M.CPort (n_of_int (int_of_string arg))
 
+(* split a token list at the separator "/" *)
+let split_steps (toks : string list) : string list list =
+  let rec go acc cur = function
+    | [] -> List.rev (List.rev cur :: acc)
+    | "/" :: t -> go (List.rev cur :: acc) [] t
+    | x :: t -> go acc (x :: cur) t in
+  go [] [] toks
+
 let rec run (toks : string list) : string =
   match toks with
+  (* a sequence of dials of ONE mail.Client, each against a server of its own: the model runs every step from the
+     configuration alone (the dial path writes no field of the Client: T1), the results are joined by " / " *)
+  | "seq" :: rest -> String.concat " / " (List.map run (split_steps rest))
   | ["cfg"; calls] ->
     let l = if calls = "-" then [] else List.map call_of (split_on ',' calls) in
     let cc = M.apply_cfg l in
